@@ -229,6 +229,13 @@ class TheJoker:
             else:
                 ln_prior = return_logprobs
 
+            if n_prior_samples is not None:
+                # only run on the first n_prior_samples samples, like the
+                # cached path does
+                prior_samples = prior_samples[:n_prior_samples]
+                if ln_prior is not None and not isinstance(ln_prior, bool):
+                    ln_prior = ln_prior[:n_prior_samples]
+
             samples = rejection_sample_inmem(
                 joker_helper,
                 prior_samples,
